@@ -98,6 +98,13 @@ Theorem C05_result_typed :
 Proof. exact combine_typed. Qed.
 Print Assumptions C05_result_typed.
 
+(* the same for a re-wrapped table *)
+Theorem C05_rewrap_typed :
+  forall h i nn nu h' r,
+    wf_heap h -> rewrap h i nn nu = (h', Some r) -> typed h' r.
+Proof. exact rewrap_typed. Qed.
+Print Assumptions C05_rewrap_typed.
+
 (* ... and on a well-formed source the destinations the result starts from (C05_header) are the
    contents of the source's own set object *)
 Theorem C05_source_destinations :
